@@ -1,1 +1,210 @@
 // Kani harnesses compiled inside rs-matter/src/sc.rs (module `verif_kani`).
+
+mod c17 {
+    use super::*;
+
+    /// Every general status code of the spec, by its numeric value.
+    const CODES: [GeneralCode; 17] = [
+        GeneralCode::Success,
+        GeneralCode::Failure,
+        GeneralCode::BadPrecondition,
+        GeneralCode::OutOfRange,
+        GeneralCode::BadRequest,
+        GeneralCode::Unsupported,
+        GeneralCode::Unexpected,
+        GeneralCode::ResourceExhausted,
+        GeneralCode::Busy,
+        GeneralCode::Timeout,
+        GeneralCode::Continue,
+        GeneralCode::Aborted,
+        GeneralCode::InvalidArgument,
+        GeneralCode::NotFound,
+        GeneralCode::AlreadyExists,
+        GeneralCode::PermissionDenied,
+        GeneralCode::DataLoss,
+    ];
+
+    const N: usize = 24;
+    const D: usize = 6;
+
+    /// write then read: all general codes, all protocol ids/codes, protocol data of 0..=6
+    /// arbitrary bytes, into ANY write buffer state (any length <= 24, any start <= end <= length).
+    // TIER: quick
+    // KIND: bounded (protocol data <= 6 bytes, write buffer <= 24 bytes)
+    #[kani::proof]
+    #[kani::unwind(10)]
+    fn c17_status_report_roundtrip() {
+        let mut arr: [u8; N] = kani::any();
+        let before = arr;
+        let len: usize = kani::any();
+        let start: usize = kani::any();
+        let end: usize = kani::any();
+        kani::assume(start <= end && end <= len && len <= N);
+        let mut wb = WriteBuf::new_with(&mut arr[..len], start, end);
+
+        let gi: usize = kani::any();
+        kani::assume(gi < CODES.len());
+        let proto_id: u32 = kani::any();
+        let proto_code: u16 = kani::any();
+        let data: [u8; D] = kani::any();
+        let n: usize = kani::any();
+        kani::assume(n <= D);
+        let sr = StatusReport {
+            general_code: CODES[gi],
+            proto_id,
+            proto_code,
+            proto_data: &data[..n],
+        };
+        kani::assert(CODES[gi] as u16 == gi as u16, "C17.status_report.general_code_numbering");
+
+        let r = sr.write(&mut wb);
+
+        let fits = len - end >= 8 + n;
+        kani::assert(r.is_ok() == fits, "C17.status_report.write.ok_iff_fits");
+        kani::assert(wb.get_start() == start, "C17.status_report.write.start_kept");
+        let j: usize = kani::any();
+        if r.is_ok() {
+            kani::assert(wb.get_tail() == end + 8 + n, "C17.status_report.write.length");
+            let out = &wb.as_slice()[end - start..];
+            // wire layout per Appendix D
+            let g = (gi as u16).to_le_bytes();
+            let p = proto_id.to_le_bytes();
+            let c = proto_code.to_le_bytes();
+            kani::assert(
+                out[0] == g[0]
+                    && out[1] == g[1]
+                    && out[2] == p[0]
+                    && out[3] == p[1]
+                    && out[4] == p[2]
+                    && out[5] == p[3]
+                    && out[6] == c[0]
+                    && out[7] == c[1],
+                "C17.status_report.write.layout"
+            );
+            if j < n {
+                kani::assert(out[8 + j] == data[j], "C17.status_report.write.data_follows");
+            }
+
+            let mut rb = ReadBuf::new(out);
+            let back = StatusReport::read(&mut rb);
+            kani::assert(back.is_ok(), "C17.status_report.roundtrip.decodes");
+            if let Ok(back) = back {
+                kani::assert(back.general_code == CODES[gi], "C17.status_report.roundtrip.general_code");
+                kani::assert(back.proto_id == proto_id, "C17.status_report.roundtrip.proto_id");
+                kani::assert(back.proto_code == proto_code, "C17.status_report.roundtrip.proto_code");
+                kani::assert(back.proto_data.len() == n, "C17.status_report.roundtrip.data_len");
+                if j < n {
+                    kani::assert(back.proto_data[j] == data[j], "C17.status_report.roundtrip.data");
+                }
+            }
+        }
+        // frame: nothing before the old tail is touched, whatever the outcome
+        let i: usize = kani::any();
+        if i < end {
+            kani::assert(wb.buf[i] == before[i], "C17.status_report.write.frame_before_tail");
+        }
+
+        kani::cover!(r.is_ok() && n == D && start > 0 && end > start, "full data into a used buffer");
+        kani::cover!(r.is_ok() && n == 0, "no data");
+        kani::cover!(!fits && len - end >= 2, "truncated write refused");
+        kani::cover!(r.is_ok() && gi == 16, "last general code");
+    }
+
+    /// The decoder on ARBITRARY bytes (0..=14 of them): value or error, never a panic; the
+    /// value is the Appendix-D reading of the bytes; unknown general codes are refused.
+    // TIER: quick
+    // KIND: bounded (input <= 14 bytes; the decoder is loop-free, longer inputs only lengthen proto_data)
+    #[kani::proof]
+    #[kani::unwind(10)]
+    fn c17_status_report_read_total() {
+        const L: usize = 14;
+        let bytes: [u8; L] = kani::any();
+        let len: usize = kani::any();
+        kani::assume(len <= L);
+        let mut rb = ReadBuf::new(&bytes[..len]);
+
+        let code = u16::from_le_bytes([bytes[0], bytes[1]]);
+        let r = StatusReport::read(&mut rb);
+        let well_formed = len >= 8 && code <= 16;
+        kani::assert(r.is_ok() == well_formed, "C17.status_report.read.ok_iff_header_and_known_code");
+        match &r {
+            Ok(sr) => {
+                kani::assert(sr.general_code as u16 == code, "C17.status_report.read.general_code");
+                kani::assert(
+                    sr.proto_id == u32::from_le_bytes([bytes[2], bytes[3], bytes[4], bytes[5]]),
+                    "C17.status_report.read.proto_id"
+                );
+                kani::assert(
+                    sr.proto_code == u16::from_le_bytes([bytes[6], bytes[7]]),
+                    "C17.status_report.read.proto_code"
+                );
+                kani::assert(sr.proto_data.len() == len - 8, "C17.status_report.read.data_is_rest_len");
+                let j: usize = kani::any();
+                if j < len - 8 {
+                    kani::assert(sr.proto_data[j] == bytes[8 + j], "C17.status_report.read.data_is_rest");
+                }
+            }
+            Err(e) => {
+                let expect = if len >= 2 && code > 16 {
+                    ErrorCode::InvalidOpcode
+                } else {
+                    ErrorCode::TruncatedPacket
+                };
+                kani::assert(e.code() == expect, "C17.status_report.read.err_code");
+            }
+        }
+
+        kani::cover!(well_formed && len == L, "longest, accepted");
+        kani::cover!(well_formed && len == 8, "header only");
+        kani::cover!(len == 7 && code <= 16, "one byte short");
+        kani::cover!(len >= 8 && code == 17, "first unknown general code");
+        kani::cover!(len == 0, "empty");
+    }
+
+    /// `SCStatusCodes::as_report` / `sc_write`: the secure-channel status codes are sent as a
+    /// status report of the secure channel protocol carrying the code and the payload.
+    // TIER: quick
+    // KIND: bounded (payload <= 6 bytes)
+    #[kani::proof]
+    #[kani::unwind(10)]
+    fn c17_sc_status_write_read() {
+        const ALL: [SCStatusCodes; 6] = [
+            SCStatusCodes::SessionEstablishmentSuccess,
+            SCStatusCodes::NoSharedTrustRoots,
+            SCStatusCodes::InvalidParameter,
+            SCStatusCodes::CloseSession,
+            SCStatusCodes::Busy,
+            SCStatusCodes::SessionNotFound,
+        ];
+        let si: usize = kani::any();
+        kani::assume(si < ALL.len());
+        let data: [u8; D] = kani::any();
+        let n: usize = kani::any();
+        kani::assume(n <= D);
+        let mut arr = [0u8; 8 + D];
+        let mut wb = WriteBuf::new(&mut arr);
+
+        let r = sc_write(&mut wb, ALL[si], &data[..n]);
+        kani::assert(r.is_ok(), "C17.sc_status.write_fits");
+        let mut rb = ReadBuf::new(wb.as_slice());
+        let back = StatusReport::read(&mut rb);
+        kani::assert(back.is_ok(), "C17.sc_status.decodes");
+        if let Ok(back) = back {
+            kani::assert(back.proto_id == PROTO_ID_SECURE_CHANNEL as u32, "C17.sc_status.proto_is_secure_channel");
+            kani::assert(back.proto_code == si as u16, "C17.sc_status.code_roundtrip");
+            // success codes travel as SUCCESS, Busy as BUSY, the failures as FAILURE
+            let g = match si {
+                0 | 3 => GeneralCode::Success,
+                4 => GeneralCode::Busy,
+                _ => GeneralCode::Failure,
+            };
+            kani::assert(back.general_code == g, "C17.sc_status.general_code");
+            kani::assert(back.proto_data.len() == n, "C17.sc_status.payload_len");
+            let j: usize = kani::any();
+            if j < n {
+                kani::assert(back.proto_data[j] == data[j], "C17.sc_status.payload");
+            }
+        }
+        kani::cover!(si == 5 && n == D, "last code, full payload");
+    }
+}
